@@ -45,11 +45,11 @@ var prefixPool = []string{"", "", "p-", "Grpc-Metadata-", "grpc-", "X-"}
 var respPool = []string{"x-r1", "X-R2", "set-cookie", "x-r3-bin", "x-internal", "x-a"}
 
 type tcase struct {
-	entry                          int
-	allowReq, allowResp, allowTrl  []string
-	prefReq, prefResp, prefTrl     string
-	headers, query                 [][2]string
-	tHdr, tTrl                     metadata.MD
+	entry                         int
+	allowReq, allowResp, allowTrl []string
+	prefReq, prefResp, prefTrl    string
+	headers, query                [][2]string
+	tHdr, tTrl                    metadata.MD
 }
 
 func subset(r *vc.Rand, pool []string, p int) []string {
